@@ -7,10 +7,13 @@ import os
 HERE = os.path.dirname(os.path.abspath(__file__))
 VERIF = os.path.dirname(HERE)
 
-WORLD_NOTE = ('Trusted: Lean 4.33 kernel; axioms propext/Classical.choice/Quot.sound; the theorem statements in '
+WORLD_NOTE = ('Two ties to /repo, both re-checked on every run: (1) correspondence of the executable model with the real headers; (2) for the '
+              'functions listed in the evidence (`translated_functions`), the translator tools/cxx2lean.py + the tie theorems of lean/TrompModel/Tie. '
+              'Trusted: Lean 4.33 kernel; axioms propext/Classical.choice/Quot.sound; the theorem statements in '
               'lean/TrompModel/Props/{id}.lean; the correspondence check (h_world harness driving the real headers of /repo under '
               'ASan+UBSan, generators, report canonicalisation, projection). Modelled, not verified: C++ overload resolution and '
-              'routing of expectations to per-function lists, std library, compiler. The world invariant hypotheses of the '
+              'routing of expectations to per-function lists, std library, compiler; the translator and its vocabulary (tools/cxxvocab.py: how calls are read '
+              'as parameters, four loop idioms over the intrusive lists). The world invariant hypotheses of the '
               'single-step theorems (ids on lists denote expectations, no duplicates) are proved for all reachable worlds in Props/C14.')
 
 CLAIMED = {
@@ -18,7 +21,7 @@ CLAIMED = {
         text='Theorems (Lean 4, all histories/arguments/user clauses): find() designates exactly the selected candidate '
              '(selected_iff_find); a call is accepted iff that candidate exists and is not a forbid (C01_accept_iff); otherwise exactly '
              'one report, fatal, no action evaluated, no count changed (C01_reject). Tie to /repo: hand-written executable model + '
-             'correspondence check (exhaustive small scopes + seeded random scripts run on the real library and on the model).',
+             'correspondence check (exhaustive small scopes + seeded random scripts run on the real library and on the model). Second tie (translator): trompeloeil::find, call_matcher::run_actions, can_be_called regenerated from /repo\'s current source by tools/cxx2lean.py on every run and proved equal to the model definitions (find_eq/find_tie, run_actions_order + run_actions_sem: the state after interpreting the translated statement trace is World.runActions). Re-entrant side effects: Model/Nested.lean (callN), state = the same calls in sequence (callN_world_is_run). Every documented spelling of REQUIRE/ALLOW/FORBID_CALL (C++14, variadic _V, named, unnamed) is run by harness/spelling.',
         ref='DESIGN.md §4 C01', technique='Lean 4 proof (refinement of the find loop + case analysis of mock_func) + model/implementation correspondence'),
     'C05': dict(
         text='Theorems: sequence cost = number of pending satisfied predecessors (handleCost_eq_some_iff), eligibility characterisation '
@@ -26,48 +29,48 @@ CLAIMED = {
              'forward-only pending lists after a match (forward_only, predecessors_retired), blocked call = one fatal sequence report and '
              'unchanged world (blocked_call), monitored destruction reports once per violated sequence (monitored_destruction), '
              'independence of unrelated sequences (eligible_congr, other_sequences_untouched). Correspondence: exhaustive scopes over '
-             '2-3 expectations (+monitor) x 2 sequences x memberships x bounds x orders, plus random scripts.',
+             '2-3 expectations (+monitor) x 2 sequences x memberships x bounds x orders, plus random scripts. Second tie (translator): sequence_type::cost / retire_until / validate_match, sequence_matchers<N>::order / validate / retire_predecessors, the sequence_matcher wrappers, run_actions, lifetime_monitor::notify regenerated from /repo\'s current source by tools/cxx2lean.py on every run and proved equal to the model definitions (cost_eq, retire_until_eq, validate_match_eq, order_eq, handle_*_order, all_*_order, run_actions_sem, notify_sem).',
         ref='DESIGN.md §4 C05', technique='Lean 4 proof (refinement of cost/retire_until loops) + model/implementation correspondence'),
     'C06': dict(
         text='Theorems: is_completed answer iff all pending satisfied (completed_iff), teardown reports exactly the pending handles once, '
              'non-fatally, nothing when empty (teardown_report), release/saturation/death leave every sequence (leaves_on_release, '
-             'leaves_on_saturation, leaves_on_death). Correspondence as C05 with `completed` after every step and `killseq` at every position.',
+             'leaves_on_saturation, leaves_on_death). Correspondence as C05 with `completed` after every step and `killseq` at every position. Second tie (translator): sequence_type::is_completed, ~sequence_type, sequence_matcher::retire, sequence_matchers<N>::retire/retire_predecessors, notify regenerated from /repo\'s current source by tools/cxx2lean.py on every run and proved equal to the model definitions (is_completed_eq, seq_dtor_eq (teardown text lists every pending handle in order), handle_retire_order, all_retire_order, notify_sem).',
         ref='DESIGN.md §4 C06', technique='Lean 4 proof + model/implementation correspondence'),
     'C02': dict(
         text='Theorems: find returns the matching expectation of least cost, the most recently created on ties (find_min_newest, '
              'find_eq_some_iff via IsDesignated.unique); without sequences simply the newest match (no_sequences_newest); frame: only '
              'the handler record/count changes, all actions belong to it, other objects and other functions/overloads untouched (C02_frame). '
              'Routing of an expectation to its per-function list is C++ overload resolution: assumed by the model, exercised by the harness '
-             '(2 mock classes, 4 functions incl. an overload pair).',
+             '(2 mock classes, 4 functions incl. an overload pair). Second tie (translator): trompeloeil::find, sequence_matchers<N>::order regenerated from /repo\'s current source by tools/cxx2lean.py on every run and proved equal to the model definitions (find_eq, find_tie, order_eq, order_tie).',
         ref='DESIGN.md §4 C02', technique='Lean 4 proof (loop refinement + frame) + model/implementation correspondence'),
     'C03': dict(
         text='Theorems: is_satisfied/is_saturated answers are count>=lo / count=hi (sat_answer, satd_answer, monitor_answers); an accepted '
              'call advances the count by one and moves the handler to the saturated list exactly at count=hi (saturation_step), after which it '
              'is never designated (not_active_not_handler); beyond hi: one fatal report naming exactly the saturated matches (beyond_hi); '
              'inverted RT_TIMES leaves nothing behind (rt_times_inverted*). count<=hi for all reachable worlds: invariant in Props/C14. '
-             'Correspondence: all 0<=L<=H<=3, inf, inverted, static forms, alone/stacked.',
+             'Correspondence: all 0<=L<=H<=3, inf, inverted, static forms, alone/stacked. Over whole histories (any script): the counter equals the number of OK reports naming the expectation = accepted calls it handled, and is <= hi (count_eq_handled, Props/C03_History.lean). Second tie (translator): sequence_handler_base::is_satisfied/is_saturated/increment_call regenerated from /repo\'s current source by tools/cxx2lean.py on every run and proved equal to the model definitions (is_satisfied_tie, is_saturated_tie, increment_call_tie). Spelling harness as C01.',
         ref='DESIGN.md §4 C03', technique='Lean 4 proof + model/implementation correspondence'),
     'C04': dict(
         text='Theorems: release reports exactly one non-fatal unfulfilled iff not reported, attached and count<lo (release_report, '
              'isUnfulfilled_iff), satisfied/reported/detached expectations are silent (satisfied_silent, reported_silent, detached_silent), '
              'mock destruction reports pending ones once and detaches all (decommission_spec), moves are silent, a released expectation '
-             'cannot report again (release_once).',
+             'cannot report again (release_once). Over whole histories: at most one shortfall report per expectation whatever the order of releases, kills, moves, calls and listings, and none after it was flagged (shortfall_at_most_once, no_second_shortfall, Props/C04_History.lean). Second tie (translator): ~call_matcher, mock_destroyed, is_unfulfilled, report_missed, call_matcher_list::decommission regenerated from /repo\'s current source by tools/cxx2lean.py on every run and proved equal to the model definitions (*_order, is_unfulfilled_tie, release_sem, decommission_sem: the interpreted statement traces are World.releaseExp / World.decommission).',
         ref='DESIGN.md §4 C04', technique='Lean 4 proof (induction over the decommission loop) + model/implementation correspondence'),
     'C07': dict(
         text='Theorems: a call designated to a forbid is exactly one fatal forbidden report with that expectation and the arguments, no action, '
              'no OK, no count change (forbid_report, forbid_no_action_no_ok); always satisfied+saturated, silent at end (forbid_flags, '
              'forbid_silent_at_end); the reported flag is invisible to matching/ordering so the n-th forbidden call behaves like the first '
-             '(forbid_repeat). The "as if it had never existed" erasure simulation is validated by the correspondence only (not proved).',
+             '(forbid_repeat). The "as if it had never existed" erasure simulation is validated by the correspondence only (not proved). Second tie (translator): call_matcher::run_actions, sequence_handler_base::is_forbidden regenerated from /repo\'s current source by tools/cxx2lean.py on every run and proved equal to the model definitions (run_actions_order (forbidden flagged and reported before anything else), run_actions_sem, is_forbidden_tie). Spelling harness as C01.',
         ref='DESIGN.md §4 C07', technique='Lean 4 proof + model/implementation correspondence'),
     'C08': dict(
         text='Theorems: WITH clauses evaluated in order up to the first failing (with_short_circuit, matches_iff); side effects once each in '
              'order then RETURN/THROW once, or stop at the first throwing effect (actions_shape); full event log of an accepted call '
-             '(eval_log_shape); a throwing call still counts (throwing_call_counts); actions belong to the handler only (C02_frame).',
+             '(eval_log_shape); a throwing call still counts (throwing_call_counts); actions belong to the handler only (C02_frame). Re-entrant side effects (a SIDE_EFFECT calling a mock function): events of the nested call directly after the effect, remaining effects on the world it left, exceptions propagate (reentrant_effect_events); no nesting = plain call (no_reentrancy_is_plain_call). Second tie (translator): trompeloeil::mock_func regenerated from /repo\'s current source by tools/cxx2lean.py on every run and proved equal to the model definitions (mock_func_order: parameters traced before run_actions, return value last).',
         ref='DESIGN.md §4 C08', technique='Lean 4 proof + model/implementation correspondence'),
     'C13': dict(
         text='Theorems: unexpected destruction iff no live requirement (unexpected_iff_none); with requirements alive nothing but sequence '
              'reports and EACH requirement becomes died (expected_destruction via notify_fold); still-alive once and forgotten by the object '
-             '(still_alive, forgotten_by_object); copies/moves do not inherit, assignment keeps (copies_do_not_inherit, assign_keeps).',
+             '(still_alive, forgotten_by_object); copies/moves do not inherit, assignment keeps (copies_do_not_inherit, assign_keeps). Second tie (translator): ~deathwatched, ~lifetime_monitor regenerated from /repo\'s current source by tools/cxx2lean.py on every run and proved equal to the model definitions (deathwatched_dtor_order, lifetime_monitor_dtor_order, killw_sem, releasemon_sem: the interpreted traces are the model transitions of killw / releasemon).',
         ref='DESIGN.md §4 C13', technique='Lean 4 proof (induction over the monitor chain) + model/implementation correspondence'),
     'C14': dict(
         text='Theorems: the linkage invariant WF (every id on a mock function list denotes a live expectation attached to exactly that '
@@ -79,23 +82,23 @@ CLAIMED = {
              'callFn). Correspondence under ASan+LeakSanitizer+UBSan+TROMPELOEIL_SANITY_CHECKS: random permutations of destruction/move '
              'operations over populations of mocks/expectations/sequences/monitors/watched/tracers interleaved with calls and queries; a '
              'sanitizer abort is a violation. Partial: memory safety is proved for the reference structure of the model; that the C++ keeps no '
-             'other pointers is observed by the sanitizers on the explored histories.',
+             'other pointers is observed by the sanitizers on the explored histories. Re-entrant calls keep every invariant (reentrant_reachable, reentrant_WF). Second tie (translator): ~sequence_type (pending and retired handles detached), sequence_matcher::detach regenerated from /repo\'s current source by tools/cxx2lean.py on every run and proved equal to the model definitions (seq_dtor_eq, handle_detach_order).',
         ref='DESIGN.md §4 C14', technique='Lean 4 proof (invariant by induction over all operations; simulation for move) + sanitizer-instrumented model/implementation correspondence'),
     'C15': dict(
         text='Theorems: every report of a call is fatal, every report of any other operation non-fatal (call_reports_fatal, '
              'destructor_reports_nonfatal: case analysis over all 23 operations); structure of the no-match listing: saturated matches or '
              'else every live expectation newest first with rejecting parameters / first failing WITH (nomatch_listing, tried_entry, '
-             'failingParams_spec). Message wording beyond the parsed structure is not compared.',
+             'failingParams_spec). Message wording beyond the parsed structure is not compared. Second tie (translator): sequence_type::validate_match regenerated from /repo\'s current source by tools/cxx2lean.py on every run and proved equal to the model definitions (validate_match_eq / validate_tie: silent iff callable, else the listing first-in-line ... first required).',
         ref='DESIGN.md §4 C15', technique='Lean 4 proof + model/implementation correspondence on parsed reports'),
     'C16': dict(
         text='Theorems: an accepted call yields exactly one OK naming the handler, a rejected one none (ok_exactly_one); no other operation '
              'reports OK (only_calls_report_ok); set_reporter answers the previous reporter and all later events go to the new one '
-             '(reporter_exchange, reports_go_to_installed).',
+             '(reporter_exchange, reports_go_to_installed). The OK reporter is a slot of its own: the one-argument set_reporter leaves it installed (reporter_exchange_one, ok_reporter_kept). Second tie (translator): call_matcher::run_actions regenerated from /repo\'s current source by tools/cxx2lean.py on every run and proved equal to the model definitions (run_actions_order: the OK report is sent after the forbidden and sequence checks).',
         ref='DESIGN.md §4 C16', technique='Lean 4 proof + model/implementation correspondence'),
     'C17': dict(
         text='Theorems: accepted call => exactly one trace record to the head of the live-tracer chain with handler, arguments, result '
              '(trace_one_per_accepted); no tracer => no trace (no_tracer_no_trace); non-calls never trace (only_calls_trace); tracer chain '
-             'push/remove (tracer_stack, nested_restore).',
+             'push/remove (tracer_stack, nested_restore). Re-entrant calls: the outer record is the last record of the operation and carries the outer result (reentrant_outer_record_last). Second tie (translator): ~tracer, mock_func regenerated from /repo\'s current source by tools/cxx2lean.py on every run and proved equal to the model definitions (tracer_dtor_tie, mock_func_order).',
         ref='DESIGN.md §4 C17', technique='Lean 4 proof + model/implementation correspondence'),
     'C11': dict(
         text='Theorems (all lengths, duplicates allowed): the element-wise fold / std::equal / std::mismatch loops accept exactly '
@@ -239,6 +242,9 @@ def main():
                  kind_free_text='Lean 4 model of scalar matchers/combinators + theorems (Props/C10.lean); tools/matchergen.py emits C++ trees'),
             dict(name='lean-range', path='lean/TrompModel/Model/Range.lean', serves_properties=['C11'],
                  kind_free_text='Lean 4 model of the range checkers + theorems (Props/C11.lean); harness/range evaluates the real matchers'),
+            dict(name='cxx2lean', path='tools/cxx2lean.py', serves_properties=['C01', 'C02', 'C03', 'C04', 'C05', 'C06', 'C07', 'C08', 'C13', 'C14', 'C15', 'C16', 'C17'],
+                 kind_free_text='source translator (C++ subset -> Lean do-blocks, vocabulary in tools/cxxvocab.py) regenerating lean/TrompModel/Gen/Cxx/*.lean '
+                                'from /repo on every run; lean/TrompModel/Tie/*.lean proves each translation equal to the model definition (DESIGN.md §12)'),
             dict(name='lean-world', path='lean/', serves_properties=[p for p in ALL if p in CLAIMED and CLAIMED[p].get('engine', 'lean-world') == 'lean-world'],
                  kind_free_text='Lean 4 model of expectations/sequences/lifetimes with property theorems; C++ harness harness/world drives the real headers; tools/check.py compares'),
         ],
